@@ -1,5 +1,5 @@
 SPECIFICATION TSpec
-CONSTANTS MaxBusy = 1000
+CONSTANTS MaxBusy = 1000000
 CONSTRAINT Progress
 INVARIANT NeverRejected
 POSTCONDITION Post
